@@ -343,6 +343,12 @@ class Check(BaseCheck):
                 args = [rnd.choice(nums if rnd.random() < 0.7 else texts) for _ in range(ar)]
                 out.append('%s(%s)' % (fn, ','.join(args)))
         out += [f for f in self.probes(rnd, 200)]
+        # operators over values that are equal-but-differently-typed (1, TRUE, 1.0, "1" ...): an untyped cache shows here
+        atoms = ['1', 'TRUE', '1.0', '"1"', '0', 'FALSE', '0.0', '""', 'NULL', '2', '"a"', '-1', 'DATE(2020,1,1)', '43831', '{1,2}', 'lst']
+        for a in atoms:
+            for b in atoms:
+                for op in ('+', '-', '*', '/', '&', '=', '<', '>', '<=', '>=', '<>'):
+                    out.append('%s%s%s' % (a, op, b))
         return sorted(set(out))
 
     def c_order(self, spec, rec):
